@@ -126,7 +126,7 @@ def bounded(prop, seed, tier, quick_only=False):
     rnd = random.Random(seed); fails = []; ev = 0
     if prop == 'C02':
         kinds = ['CPA', 'DPA', 'ANOVA', 'NICV', 'SNR', 'MIA']
-        frames = [None, slice(2, 9), [5, 1, 9, 1], [2, 4, 3, 5], [0, 1, 1, 3]]
+        frames = [None, slice(2, 9), [5, 1, 9, 1], [2, 4, 3, 5], [0, 1, 1, 3], range(2, 9), range(5, -1, -1), range(9, 0, -3)]
         pps = [(), (scared.preprocesses.square,), (scared.preprocesses.square, scared.preprocesses.high_order.Difference(frame_1=slice(0, 3)))]
         Ns = list(range(1, 14)) if tier != 'quick' else [1, 2, 5, 7, 11, 13]
         for kind in kinds:
